@@ -61,4 +61,36 @@ C07_NotDelivered(deliv, txs) == \A p \in deliv : p + 1 \in 1..Len(txs) /\ txs[p 
 C07_ViewNoEffect(changed, metaSame) == changed = {} /\ metaSame
 C08_OneReceiptPerTx(n, nrec, orderOK) == nrec = n /\ orderOK
 C08_NextHeight(hPrev, h) == h = hPrev + 1
+
+(***************************************************************************)
+(* All generic formulas on one observed Block event e (harness/lockstep):  *)
+(* returns the set of <<formula name, detail>> that fail.  adm0 = admins.  *)
+(***************************************************************************)
+GenericBlockViol(e, adm0) ==
+  LET txs   == e.txs
+      n     == Len(txs)
+      adm   == adm0
+      one   == n = 1
+      t     == txs[1]
+      lost  == SumOver(e.pre) - SumOver(e.bal)
+  IN (IF C08_OneReceiptPerTx(n, e.nrec, e.orderOK) THEN {} ELSE {<<"C08_OneReceiptPerTx", e.h>>})
+     \cup (IF C08_NextHeight(e.hPrev, e.h) THEN {} ELSE {<<"C08_NextHeight", e.h>>})
+     \cup (IF C07_FailedNoEffect(e.attributable, ToSet(e.diff), ToSet(e.allowed)) THEN {}
+           ELSE {<<"C07_FailedNoEffect", [keys |-> ToSet(e.diff) \ ToSet(e.allowed),
+                                          failed |-> {[m |-> txs[p + 1].m, c |-> txs[p + 1].to, cls |-> txs[p + 1].cls] : p \in ToSet(e.failed)}]>>})
+     \cup (IF e.nrec # n \/ C07_NotDelivered(ToSet(e.deliv), txs) THEN {} ELSE {<<"C07_NotDelivered", e.h>>})
+     \cup (IF C14_NoCreation(e.pre, e.bal) THEN {}
+           ELSE {<<"C14_NoCreation", [gain |-> 0 - lost, kinds |-> {[k |-> txs[i].k, self |-> txs[i].from = txs[i].to, amt |-> txs[i].amtKind] : i \in 1..n}]>>})
+     \cup (IF C14_NonNegative(e.bal, e.negative) THEN {}
+           ELSE {<<"C14_NonNegative", {[k |-> txs[i].k, amt |-> txs[i].amtKind] : i \in 1..n}>>})
+     \cup (IF lost <= n * (Cardinality(adm) - 1) THEN {} ELSE {<<"C14_FeeRounding", lost>>})
+     \cup (IF one /\ e.nrec = 1 /\ t.k = "transfer" /\ t.status = "SUCCESS" /\ t.amtKind = "num"
+              /\ ~C14_TransferExact(e.pre, e.bal, adm, t.from, t.to, t.amtNum)
+           THEN {<<"C14_TransferExact", [amt |-> t.amtNum, self |-> t.from = t.to]>>} ELSE {})
+     \cup (IF one /\ e.nrec = 1 /\ t.k = "transfer" /\ t.status = "SUCCESS" /\ t.amtKind \in {"neg", "big"}
+           THEN {<<"C14_TransferExact", [amt |-> t.amtKind, self |-> t.from = t.to]>>} ELSE {})
+     \cup (IF one /\ e.nrec = 1 /\ t.k = "transfer" /\ t.status = "FAILED"
+              /\ ~C14_InsufficientNoEffect(e.pre, e.bal, adm, t.from, t.to)
+           THEN {<<"C14_InsufficientNoEffect", t.amtKind>>} ELSE {})
+
 =============================================================================
